@@ -34,6 +34,18 @@ Err(b) == [b EXCEPT !.nerr = @ + 1]
 (* decl_parameter *)
 DeclParameter(b, name) == [b EXCEPT !.params = Append(@, [name |-> name, id |-> b.nid + 1]), !.nid = @ + 1]
 
+(* decl_func_begin / decl_func_end (StatementBuilder): the function's symbol enters the current declaration block (the template's frame
+   inside a template, the global frame otherwise) even when the name is a duplicate, which is reported; the pending parameter frame
+   becomes the function's own scope *)
+DeclFuncBegin(b, name) ==
+    LET inT == b.curT # 0
+        fr == IF inT THEN b.templs[b.curT].frame ELSE b.gf
+        b1 == IF HasName(fr, name) THEN Err(b) ELSE b
+        s == Sym(name, "fun", b.curT, 0)
+        b2 == IF inT THEN [b1 EXCEPT !.templs[b.curT].frame = Append(@, s)] ELSE [b1 EXCEPT !.gf = Append(@, s)]
+    IN [b2 EXCEPT !.params = <<>>, !.frames = Append(@, "f")]
+DeclFuncEnd(b) == [b EXCEPT !.frames = SubSeq(@, 1, Len(@) - 1)]
+
 (* proc_begin -> Document::add_template *)
 ProcBegin(b, name) ==
     LET b1 == IF HasName(b.gf, name) THEN Err(b) ELSE b          \* frames.top() is the global frame here
@@ -101,7 +113,8 @@ Process(b, name) ==
 
 Apply(b, ev) ==
     CASE ev.cb = "decl_parameter" -> DeclParameter(b, ev.a)
-      [] ev.cb = "decl_func_begin" -> [b EXCEPT !.params = <<>>]          \* the pending parameter frame becomes the function's (StatementBuilder::decl_func_begin)
+      [] ev.cb = "decl_func_begin" -> DeclFuncBegin(b, ev.a)
+      [] ev.cb = "decl_func_end" -> DeclFuncEnd(b)
       [] ev.cb = "proc_begin" -> ProcBegin(b, ev.a)
       [] ev.cb = "proc_end" -> ProcEnd(b)
       [] ev.cb = "proc_location" -> ProcLocation(b, ev.a)
